@@ -33,7 +33,8 @@ RULE = ("Hypothesis-generated histories: an option table of 2..8 options drawn f
         "(Boolean, Boolean+Auto, Integer, SignedInteger, Port, TimeInterval, DataSize, Float, String, Filename, "
         "LineList, CommaList, RouterList, *PortLines) with generated initial values, then 1..6 rounds of "
         "0..5 local steps (assign scalar / assign list / assign [] / append / extend / insert / remove / pop / "
-        "setitem / pop-until-empty / read / needs_save(), attribute names in four spellings) each closed by a "
+        "setitem / pop-until-empty / read / needs_save() / an assignment that validation refuses - half of them "
+        "right after a valid change of the same option -, attribute names in four spellings) each closed by a "
         "save() that the reference Tor accepts or refuses with 5xx, optionally followed by a second save(); "
         "plus 8 fixed scenarios; interpreted against a real TorConfig bootstrapped over a causal byte pipe from a "
         "reference Tor configuration store, and against a model of the pending set. Non-trivial = at least "
@@ -61,6 +62,13 @@ ASSUMPTIONS = [
     "initial option states whose bootstrap *shape* is C11's subject are not generated here: multi-valued or "
     "defaulted-by-one-line port options, list options unset with a one-line default, empty comma lists",
     "a SETCONF that only clears options is written as bare keys or 'Key='; both forms are accepted",
+    "refused assignments: values that neither Tor nor txtorcon's documented/tested validation can take (None or a "
+    "word without digits for the Integer family, None or 'maybe' for Boolean+Auto, None or an int for a LineList) "
+    "must raise; values Tor itself would accept ('4 KBytes', '10 MB', '1 hour', '1.5', 'auto', 'True', a bare str for "
+    "a LineList) may raise or be accepted - if accepted the history ends there, uncompared and counted; whenever an "
+    "assignment raises, nothing else may change: nothing on the wire, the pending set, needs_save() and the next "
+    "SETCONF are as if it had not been attempted; types without validation (Boolean, Float, String, Filename, "
+    "CommaList, RouterList, port options) get no such step",
     "commands other than SETCONF/RESETCONF (e.g. a GETCONF issued by a read) are not counted as 'sending a change'",
 ]
 
@@ -109,10 +117,37 @@ def cases(draw, max_rounds=6):
             s["i"] = draw(st.one_of(st.none(), st.integers(0, 5)))
         return s
 
+    refusable = [o for o in opts if cm.refusable_values(o["type"]) is not None]
+
+    @st.composite
+    def bad_assign(draw, o):
+        return {"op": "bad_assign", "o": o["name"], "v": draw(cm.refusable_values(o["type"])), "case": draw(spell)}
+
+    @st.composite
+    def chunk(draw):
+        """One local step, or (one in six, if the table has an option with validation) an assignment that
+        validation refuses - half of the time right after a valid change of the same option."""
+        if not refusable or draw(st.integers(0, 5)):
+            return [draw(step())]
+        o = draw(st.sampled_from(refusable))
+        seq = []
+        if draw(st.booleans()):
+            if simconf.is_list_type(o["type"]):
+                elem = cm.list_elements(o["type"])
+                seq.append(draw(st.one_of(
+                    st.builds(lambda v, c: {"op": "append", "o": o["name"], "v": v, "case": c}, elem, spell),
+                    st.builds(lambda v, c: {"op": "assign", "o": o["name"], "v": v, "case": c},
+                              st.lists(elem, min_size=1, max_size=3), spell))))
+            else:
+                seq.append({"op": "assign", "o": o["name"], "v": draw(cm.assign_values(o["type"])), "case": draw(spell)})
+        seq.append(draw(bad_assign(o)))
+        return seq
+
     # a history is a sequence of rounds: a few local steps, then a save Tor accepts or refuses
     save = st.builds(lambda a, g: {"op": "save", "accept": a, "again": g},
                      st.sampled_from([True, True, False]), st.sampled_from([False, False, True]))
-    rnd = st.tuples(st.lists(step(), min_size=0, max_size=5), save).map(lambda t: t[0] + [t[1]])
+    rnd = st.tuples(st.lists(chunk(), min_size=0, max_size=5), save).map(
+        lambda t: [x for c in t[0] for x in c] + [t[1]])
     rounds = draw(st.lists(rnd, min_size=1, max_size=max_rounds))
     tail = draw(st.lists(step(), max_size=2))
     steps = [s for r in rounds for s in r] + tail
@@ -209,6 +244,32 @@ class _Run(object):
         m.kind, m.pending, m.wire, m.touched = "assign", view, wire, True
         m.seen.append(view)
         self.wire_quiet(before, "assigning %s" % m.name)
+
+    def do_bad_assign(self, s):
+        """An assignment that the option's validation refuses: it raises and changes nothing."""
+        m = self.opts[s["o"]]
+        v = s["v"]
+        must = cm.must_refuse(m.typ, v)
+        before = len(self.pipe.commands)
+        raised = None
+        try:
+            setattr(self.cfg, self.attr(m, s.get("case", 0)), v)
+        except Exception as e:
+            raised = e
+        if raised is None:
+            if must:
+                self.res.bad("invalid-assignment-accepted", "%s (%s) = %r did not raise" % (m.name, m.typ, v))
+            else:
+                # Tor itself would take this value; what a TorConfig that accepts it then sends is not stated
+                self.res.excluded.append("ill-typed-but-tor-acceptable-assignment-accepted")
+            self.dead = True
+            return
+        self.res.label("refused-assignment:%s%s" % (m.typ, ":with-change-pending" if m.touched else ""))
+        if not isinstance(raised, (ValueError, TypeError)):
+            self.res.label("refused-assignment-raised-" + type(raised).__name__)
+        self.wire_quiet(before, "the refused assignment %s = %r" % (m.name, v))
+        if not self.dead:
+            self.do_needs_save()        # the pending set is what it was
 
     def do_listop(self, s):
         m = self.opts[s["o"]]
@@ -565,6 +626,8 @@ def drive_history(case):
         op = s["op"]
         if op == "assign":
             run.do_assign(s)
+        elif op == "bad_assign":
+            run.do_bad_assign(s)
         elif op in LIST_OPS:
             run.do_listop(s)
         elif op == "save":
@@ -596,6 +659,19 @@ def _fixed_cases():
              O("SocksPort", "PortLines", value=["9050"]), O("NumCPUs", "Integer", value=["2"]),
              O("LongLivedPorts", "CommaList", value=["21,22"]), O("AvoidDiskWrites", "Boolean", value=["0"])]
     sv = lambda acc=True, again=True: {"op": "save", "accept": acc, "again": again}
+    # assignments that validation refuses: they raise and the pending set is what it was
+    t2 = table + [O("BandwidthRate", "DataSize", value=["1024"]), O("UseMicrodescriptors", "Boolean+Auto", value=["auto"])]
+    bad = lambda o, v, k=0: {"op": "bad_assign", "o": o, "v": v, "case": k}
+    yield {"opts": t2, "echo": False, "steps": [
+        {"op": "assign", "o": "BandwidthRate", "v": 4096, "case": 0}, bad("BandwidthRate", "4 KBytes"),
+        {"op": "append", "o": "Log", "v": "info stdout", "case": 1}, bad("Log", "notice stderr", 2), bad("Log", 7),
+        {"op": "assign", "o": "NumCPUs", "v": 2, "case": 0}, bad("NumCPUs", None, 3),
+        {"op": "assign", "o": "UseMicrodescriptors", "v": 1, "case": 0}, bad("UseMicrodescriptors", "maybe"),
+        {"op": "needs_save"}, sv(True)]}
+    yield {"opts": t2, "echo": True, "steps": [
+        {"op": "assign", "o": "NumCPUs", "v": 8, "case": 0}, sv(False, False), bad("NumCPUs", "no"), {"op": "needs_save"},
+        sv(True), bad("NumCPUs", "x1"), {"op": "needs_save"}, sv(True),
+        {"op": "assign", "o": "Log", "v": ["a", "b"], "case": 0}, bad("Log", None), sv(True)]}
     yield {"opts": table, "steps": [
         {"op": "append", "o": "Log", "v": "info file /tmp/x y", "case": 1},
         {"op": "assign", "o": "NumCPUs", "v": "4", "case": 2}, sv(False), {"op": "needs_save"},
@@ -902,6 +978,18 @@ def run(ctx):
 
 
 MUTANTS = [
+    # assignments refused by validation
+    ("refused-assignment-drops-pending-change", "txtorcon/torconfig.py",
+     "                value = self.parsers[name].validate(value, self, name)\n",
+     "                try:\n                    value = self.parsers[name].validate(value, self, name)\n"
+     "                except (ValueError, TypeError):\n                    self.unsaved.pop(name, None)\n"
+     "                    raise\n"),
+    ("integer-validate-accepts-anything", "txtorcon/torconfig.py",
+     "    def validate(self, s, instance, name):\n        return int(s)",
+     "    def validate(self, s, instance, name):\n        try:\n            return int(s)\n"
+     "        except (ValueError, TypeError):\n            return s"),
+    ("linelist-validate-wraps-non-lists", "txtorcon/torconfig.py",
+     "            raise ValueError(\"Not valid for %s: %s\" % (self.__class__, obj))", "            obj = [obj]"),
     ("send-on-setattr", "txtorcon/torconfig.py",
      "            self.unsaved[name] = value\n\n        else:\n            super(TorConfig, self).__setattr__(name, value)",
      "            self.unsaved[name] = value\n            self.save()\n\n        else:\n            super(TorConfig, self).__setattr__(name, value)"),
